@@ -146,7 +146,7 @@ class C06(Check):
         )
         resp = st.one_of(
             st.builds(obj, jsonrpc=mostly('2.0', a), id=st.one_of(jg.valid_ids(), a), result=anyv, error=st.just(ABSENT)),
-            st.builds(obj, jsonrpc=mostly('2.0', a), id=st.one_of(jg.valid_ids(), a), result=st.just(ABSENT), error=st.one_of(err, err, a)),
+            st.builds(obj, jsonrpc=mostly('2.0', a), id=st.one_of(jg.valid_ids(), a), result=st.just(ABSENT), error=jg.weighted(err, err, a)),
             st.builds(obj, jsonrpc=mostly('2.0', a), id=st.one_of(jg.valid_ids(), a), result=anyv, error=st.one_of(err, a)),
         )
         small_id = st.sampled_from([ABSENT, None, 0, 1, 2, '1', '', 1, 1])
